@@ -249,7 +249,7 @@ func cmdCheck(args []string) int {
 			if _, ok := seen[id]; ok {
 				continue
 			}
-			if strings.Contains(id, "#pre[") || strings.Contains(id, "#safety[") || strings.Contains(id, "#overflow[") || strings.Contains(id, "#frame[") || strings.Contains(id, "@") {
+			if strings.Contains(id, "#pre[") || strings.Contains(id, "#safety[") || strings.Contains(id, "#overflow[") || strings.Contains(id, "#frame[") || strings.Contains(id, "#guard[") || strings.Contains(id, "@") {
 				continue
 			}
 			viols = append(viols, viol{id: id, why: "claimed obligation is no longer generated (contract unbound or code path removed)"})
